@@ -133,6 +133,18 @@ def rule_concat_once(db: ProgramDB) -> List[Instance]:
                         writes.append(((n2.lineno, n2.col_offset), "<built>"))
             writes.sort(key=lambda w: w[0])
             last_is_sources = bool(writes) and writes[-1][1] == bp
+        # (c) the row does not bind the variables the concatenation ranges over (they have no single value after it): it is
+        # not built from every id the child's rows carry
+        built_from_all = False
+        for n2 in own_nodes(m.node):
+            if isinstance(n2, (ast.DictComp,)) and any("items()" in unparse(g.iter) for g in n2.generators):
+                # {k: … for k, v in <accumulator of all ids>.items()}
+                built_from_all = True
+        out.append(inst("CONCAT-ONCE", VIOLATION if built_from_all else HOLDS, m, "Concatenate._evaluate__[the variables it ranges over stay unbound]",
+                        "the row maps every id the child's rows carry to the list of its values: a variable of the concatenated expression is then "
+                        "'bound' to a list, and any other expression on that variable in the same condition (a second concatenation over the same "
+                        "parent, bx.name == 'B1') is evaluated on the list and fails" if built_from_all else
+                        "the row binds the combined list (and what was bound before), not the variables the concatenation ranges over", line=y.lineno))
         out.append(inst("CONCAT-ONCE", HOLDS if last_is_sources else VIOLATION, m, "Concatenate._evaluate__[incoming bindings handed on unchanged]",
                         f"the incoming binding `{bp}` is written over the aggregated row last" if last_is_sources else
                         f"the row is handed on without the incoming binding `{bp}` written over it: the concatenation aggregates every id "
